@@ -11,8 +11,7 @@ from __future__ import annotations
 import json
 
 from . import oracle as O
-from .executor import run_ops
-from .forks import call_in_fork
+from . import zygote
 
 RUN_TIMEOUT = 90.0
 
@@ -25,7 +24,7 @@ class HarnessFailure(Exception):
 
 
 def execute(ops, knobs, pac=False, timeout=RUN_TIMEOUT):
-    st, res = call_in_fork(run_ops, (ops, knobs, pac), timeout=timeout)
+    st, res = zygote.call((ops, knobs, pac), timeout)
     if st == "ok":
         return res
     if st == "timeout":
